@@ -2681,17 +2681,22 @@ class Interpreter(InterpreterBase, HoldableObject):
                           follow_symlinks: T.Optional[bool] = None) -> list[build.Data]:
         install_dir_name = install_dir.optname if isinstance(install_dir, P_OBJ.OptionString) else install_dir
         dirs = collections.defaultdict(list)
+        renames: T.DefaultDict[str, T.List[str]] = collections.defaultdict(list)
         if preserve_path:
-            for file in sources:
+            for i, file in enumerate(sources):
                 dirname = os.path.dirname(file.fname)
                 dirs[dirname].append(file)
+                if rename:
+                    renames[dirname].append(rename[i])
         else:
             dirs[''].extend(sources)
+            if rename:
+                renames[''].extend(rename)
 
         ret_data: list[build.Data] = []
         for childdir, files in dirs.items():
             d = build.Data(files, os.path.join(install_dir, childdir), os.path.join(install_dir_name, childdir),
-                           install_mode, self.subproject, rename, tag, install_data_type,
+                           install_mode, self.subproject, renames[childdir] if rename else None, tag, install_data_type,
                            follow_symlinks)
             ret_data.append(d)
 
